@@ -456,7 +456,10 @@ def slack_embedding(prog: Program, rep) -> None:
     ok = False
     if len(gen) == 1:
         v = fr.resolved(gen[0], gen[0].value)
-        ok = isinstance(v, ast.Tuple) and [U(e) for e in v.elts] == [f"self.orig_vals({xn})", yn, f"self.orig_vals({dn})"]
+        # orig_vals(v) is v[:self.problem.num_vars]; either spelling drops exactly the slack block
+        def drop(nm):
+            return (f"self.orig_vals({nm})", f"{nm}[:self.problem.num_vars]")
+        ok = isinstance(v, ast.Tuple) and len(v.elts) == 3 and U(v.elts[0]) in drop(xn) and U(v.elts[1]) == yn and U(v.elts[2]) in drop(dn)
     rep.check(ok, "slack-layout", rs_.qualname, short(gen[0]) if gen else "", "restore_sol drops exactly the slack block of x and d and passes y through", rs_.loc())
     early = [r for r in returns_of(rs_) if r not in gen]
     rep.check(all(U(r.value).replace(" ", "") == f"({xn},{yn},{dn})" for r in early), "slack-layout", rs_.qualname, "no slacks", "without slacks restore_sol is the identity", rs_.loc())
@@ -488,6 +491,21 @@ def pipeline(prog: Program, rep) -> None:
             ok_n = els == [f"__item__({inner}, {k})" for k in range(3)]
         else:
             ok_s = els == [f"self.scaling.unscale_primal(__item__({inner}, 0))", f"self.scaling.unscale_dual(__item__({inner}, 1))", f"self.scaling.unscale_bounds_dual(__item__({inner}, 2))"]
+    if not (ok_n and ok_s):
+        # single-exit form: x, y, d are overwritten by their unscaled values under `scaling is not None` and returned once
+        rr = returns_of(rs)
+        if len(rr) == 1:
+            v = fr.resolved(rr[0], rr[0].value)
+            if isinstance(v, ast.Tuple) and len(v.elts) == 3:
+                names_ = ("unscale_primal", "unscale_dual", "unscale_bounds_dual")
+                good = True
+                for k, e in enumerate(v.elts):
+                    alts = {U(a) for a in phi_alternatives(e)}
+                    good = good and alts == {f"self.scaling.{names_[k]}(__item__({inner}, {k}))", f"__item__({inner}, {k})"}
+                sts = [q for q in fr.order if isinstance(q.stmt, ast.Assign) and isinstance(q.stmt.value, ast.Call) and isinstance(q.stmt.value.func, ast.Attribute)
+                       and q.stmt.value.func.attr in names_]
+                good = good and len(sts) == 3 and all(q.facts == [("isnot", "self.scaling", "None")] for q in sts)
+                ok_n = ok_s = good
     rep.check(ok_n and ok_s, "restore-wiring", rs.qualname, "restore_sol",
               "restore_sol drops the slacks first and then applies unscale_primal / unscale_dual / unscale_bounds_dual to the x / y / d slots", rs.loc())
 
